@@ -1,13 +1,14 @@
 // Command verif: `verif check <ID>` | `verif replay <ID> <file>`; tier and seed from the environment.
+// Properties register themselves from reg_<id>.go files in this package.
 package main
 
 import (
 	"fmt"
 	"os"
+	"sort"
 	"strings"
 
 	"verif/harness/mc"
-	"verif/harness/props/c19"
 )
 
 type prop struct {
@@ -22,13 +23,20 @@ var seamAssumptions = []string{
 	"bounds: the actors, amount domains and depth stated in coverage.parts[].bounds; nothing outside them is claimed",
 }
 
-var registry = map[string]prop{
-	"C19": {"model_checking", seamAssumptions, c19.Parts},
-}
+var registry = map[string]prop{}
 
 func main() {
+	if len(os.Args) >= 2 && os.Args[1] == "list" {
+		var ids []string
+		for k := range registry {
+			ids = append(ids, k)
+		}
+		sort.Strings(ids)
+		fmt.Println(strings.Join(ids, " "))
+		return
+	}
 	if len(os.Args) < 3 {
-		fmt.Fprintln(os.Stderr, "usage: verif check <ID> | verif replay <ID> <file>")
+		fmt.Fprintln(os.Stderr, "usage: verif check <ID> | verif replay <ID> <file> | verif list")
 		os.Exit(2)
 	}
 	id := strings.ToUpper(os.Args[2])
